@@ -29,6 +29,42 @@ C14_CFG = dict(alias_tag_defaults=True, omitted=False, schema='client', max_ns=3
 def cases(draw):
     api = draw(gen.api_models(gen.Cfg(**C14_CFG)))
     idx = M.Index(api)
+    # argument structs (and their ancestors) with a tag default whose union lives in another namespace
+    # than the struct: the client has to spell the default with the union's namespace
+    k = 0
+    for ns, r in list(idx.routes()):
+        b = idx.base(r['arg']) if r['arg'] != M.VOID else None
+        if b is None or b[0] != 'ref' or idx.get(b[1], b[2])['k'] != 'struct' or draw(st.integers(0, 2)):
+            continue
+        chain = idx.chain(b[1], idx.get(b[1], b[2]))
+        sn, sd = chain[draw(st.integers(0, len(chain) - 1))]
+        if sd.get('patch') or sd.get('subtypes'):
+            continue
+        nsd = idx.ns[sn]
+        foreign = [(un, u) for un in nsd['imports'] for u in idx.ns[un]['defs'] if u['k'] == 'union' and
+                   any(tg['type'] is None for _, _, tg in idx.union_all_tags(un, u, False))]
+        if not foreign:
+            continue
+        un, u = draw(st.sampled_from(foreign))
+        voids = [tg['name'] for _, _, tg in idx.union_all_tags(un, u, False) if tg['type'] is None]
+        taken = set()
+        stack = [chain[0]]
+        while stack:
+            a, x = stack.pop()
+            taken |= {f['name'] for f in x['fields']}
+            stack += idx.children(a, x['name'])
+        k += 1
+        name = 'zz_mode%d' % k
+        if name in taken:
+            continue
+        ftype = ('ref', un, u['name'])
+        if draw(st.integers(0, 2)) == 0 and 'zzalias%d' % k not in {M.canon(x.get('name', '')) for x in nsd['defs']}:
+            # ... and typed through an alias that is declared in the struct's namespace, not the union's
+            nsd['defs'].append({'k': 'alias', 'name': 'ZzAlias%d' % k, 'type': ftype, 'doc': None, 'annots': []})
+            ftype = ('alias', sn, 'ZzAlias%d' % k)
+        sd['fields'].append({'name': name, 'type': ftype, 'doc': None,
+                             'default': ('tag', draw(st.sampled_from(voids))), 'annots': []})
+    idx = M.Index(api)
     costs = values.Costs(idx)
     calls = []
     for ns, r in idx.routes():
